@@ -277,7 +277,7 @@ impl Prop for C14 {
     fn generate(&self, t: &mut Tape) -> Case {
         let a = gen_uval(t);
         if t.chance(1, 8) && restorable(&a.value()) {
-            return Case::BuildKnock { a, n: 1 + t.pick(5) as u32 };
+            return Case::BuildKnock { a, n: if t.chance(1, 20) { 250 + t.pick(60) as u32 } else { 1 + t.pick(5) as u32 } };
         }
         let b = if t.chance(1, 10) { a.clone() } else { gen_uval(t) };
         Case::Pair { a, b }
@@ -292,7 +292,7 @@ impl Prop for C14 {
         }
         for a in &u {
             if restorable(&a.value()) {
-                for n in 1..=5 {
+                for n in [1, 2, 3, 4, 5, 255, 256, 300] {
                     v.push(Case::BuildKnock { a: a.clone(), n });
                 }
             }
